@@ -9,11 +9,15 @@
   Theorems: `Inv17` is preserved by every phase for every environment, every controller; in
   particular redirecting, stopping or running out of energy clears the record
   (`cleared_on_leave`). The clause "under the built-in dispatcher at most one vehicle travels to a
-  request" rests on C12's `dispatch_valid` (only unassigned requests are targeted, each once per
-  step) and is checked on implementation traces by the monitor; its Lean statement is
-  `Hive.C17.unique_under_builtin` once proved (see DESIGN.md 3/C17 for the status).
+  request" is `unique_under_dispatcher`: in every state reachable by phases whose trip dispatches
+  name only requests without a vehicle, pairwise distinct (every other instruction arbitrary), two
+  vehicles travelling to the same waiting request are the same vehicle. That the built-in
+  dispatcher's instructions have this shape is `dispatcher_instructions_ok`, derived from the
+  checker of C12 (`checkRun`), which every run of the real dispatcher is put through.
 -/
 import Proofs.C17
+import Proofs.C17u
+import Properties.C12
 
 namespace Hive
 namespace C17
@@ -75,6 +79,71 @@ private def ex : Sim :=
     stations := [], bases := [], requests := [rq 0 none, rq 1 (some 2)],
     applied := [], vIdx := ⟨[], []⟩, rIdx := ⟨[], []⟩, sIdx := ⟨[], []⟩, bIdx := ⟨[], []⟩ }
 example : inv17 ex = true := by decide
+
+/-- **at most one vehicle is travelling to any waiting request** in every state reachable under
+    dispatcher-like control (`PhaseD`: trip dispatches only to requests without a vehicle, no two
+    to the same request; all other instructions, oracle answers, arrivals and cancellations
+    arbitrary), from any well-formed start in which it holds (e.g. one without travelling vehicles) -/
+theorem unique_under_dispatcher {env : Env} {s0 s : Sim} (hwf : s0.WF) (hc : Conv s0) (h : ReachableD env s0 s)
+    {u u' : VehicleId} {veh veh' : Vehicle} {rid : RequestId} {ro ro' : Route} {r : Request}
+    (h1 : s.vehicle? u = some veh) (a1 : veh.act = .dispatchTrip rid ro)
+    (h2 : s.vehicle? u' = some veh') (a2 : veh'.act = .dispatchTrip rid ro') (hr : s.request? rid = some r) : u = u' :=
+  conv_unique (reachableD_conv hwf hc h).1 h1 a1 h2 a2 hr
+
+/-- a start without travelling vehicles satisfies `Conv` -/
+theorem conv_initial {s : Sim} (h : ∀ veh ∈ s.vehicles, ∀ rid route, veh.act ≠ .dispatchTrip rid route) : Conv s := by
+  intro u veh rid route hu hact
+  exact absurd hact (h veh (vehicle?_some hu).1 rid route)
+
+/-- the instructions one accepted dispatcher run amounts to -/
+def dispatcherInstrs (as : List Dispatch.Answer) : List Instr :=
+  (C12.allPairs as).map fun p => Instr.dispatchTrip p.1 p.2
+
+/-- every request paired in an accepted run has no vehicle assigned in the state -/
+theorem run_pairs_waiting (cfg : Dispatch.DCfg) (range : VehicleId → Option Rat) (c : VehicleId → RequestId → Int)
+    (s : Sim) (hwf : s.WF) (as : List Dispatch.Answer) :
+    ∀ (usedV : List VehicleId) (usedR : List RequestId), Dispatch.checkRun cfg range c s usedV usedR as = true →
+      ∀ p ∈ C12.allPairs as, ∀ req, s.request? p.2 = some req → req.dispVeh = none := by
+  induction as with
+  | nil => intro _ _ _ p hp; simp [C12.allPairs] at hp
+  | cons a more ih =>
+    intro usedV usedR h p hp req hreq
+    simp only [Dispatch.checkRun, Bool.and_eq_true] at h
+    have hall : C12.allPairs (a :: more) = a.pairs ++ C12.allPairs more := by simp [C12.allPairs]
+    rw [hall] at hp
+    rcases List.mem_append.mp hp with h1 | h1
+    · obtain ⟨hval, _⟩ := C12.checkFleet_sound cfg range c s hwf usedV usedR a h.1
+      obtain ⟨req', hm, hid, hnone, _⟩ := C12.paired_request_waiting usedR a.fleet s p.2
+        (hval.rSub p.2 (List.mem_map.mpr ⟨p, h1, rfl⟩))
+      have := lookup_of_mem (key := Request.id) hwf.req hm
+      rw [hid] at this
+      unfold Sim.request? at hreq
+      rw [this] at hreq
+      cases hreq
+      exact hnone
+    · exact ih _ _ h.2 p h1 req hreq
+
+/-- **the built-in dispatcher's instructions have the shape `PhaseD` asks for**: one per vehicle,
+    trip targets pairwise distinct, every target without a vehicle -/
+theorem dispatcher_instructions_ok (cfg : Dispatch.DCfg) (range : VehicleId → Option Rat) (c : VehicleId → RequestId → Int)
+    (s : Sim) (hwf : s.WF) (as : List Dispatch.Answer) (h : Dispatch.checkRun cfg range c s [] [] as = true) :
+    ((dispatcherInstrs as).map Instr.vehicle).Nodup ∧
+    ((dispatcherInstrs as).filterMap Instr.trip?).Nodup ∧
+    ∀ rid ∈ (dispatcherInstrs as).filterMap Instr.trip?, ∀ req, s.request? rid = some req → req.dispVeh = none := by
+  obtain ⟨hv, hr, _, _⟩ := C12.run_distinct cfg range c s hwf as [] [] h
+  have e1 : (dispatcherInstrs as).map Instr.vehicle = (C12.allPairs as).map (·.1) := by
+    simp [dispatcherInstrs, List.map_map, Function.comp_def, Instr.vehicle]
+  have e2 : (dispatcherInstrs as).filterMap Instr.trip? = (C12.allPairs as).map (·.2) := by
+    unfold dispatcherInstrs
+    rw [List.filterMap_map]
+    induction C12.allPairs as with
+    | nil => rfl
+    | cons p ps ih => simp only [List.filterMap_cons, Function.comp, Instr.trip?, List.map_cons, ih]
+  refine ⟨by rw [e1]; exact hv, by rw [e2]; exact hr, ?_⟩
+  intro rid hrid req hreq
+  rw [e2] at hrid
+  obtain ⟨p, hp, rfl⟩ := List.mem_map.mp hrid
+  exact run_pairs_waiting cfg range c s hwf as [] [] h p hp req hreq
 
 end C17
 end Hive
